@@ -1,4 +1,5 @@
 """C09 - declared constraints hold exactly: TurDB accepts a write iff Relational.tla's TableOk holds afterwards."""
+import os
 import relrun, relational as R
 LEVEL = "model_checking"
 
@@ -74,6 +75,114 @@ def probe_phase(chk):
     chk.mark("probes")
 
 
+def check_phase(chk):
+    """CHECK (CheckExpr.tla): x INT CHECK (e) accepts v iff ThreeVL!Eval(e, x = v) is not FALSE; every expression shape
+    of the spec written with minimal parentheses, every value, through INSERT and through UPDATE"""
+    import random, json, vlib, threevl
+    thorough = chk.tier == "thorough"
+    gen = vlib.tlc_emit("MC_CheckExpr.tla", os.path.join(vlib.SPEC, "Gen_CheckExpr.cfg"), timeout=1500, workers=4)
+    if gen["violated"]:
+        raise vlib.ToolError("CheckExpr.tla violates its own laws: %s" % gen["violated"])
+    cases = gen["emitted"]
+    total = len(cases)
+    rng = random.Random(chk.seed)
+
+    def skeleton(t):
+        if t[0] in ("and", "or", "not"):
+            return "%s(%s)" % (t[0], ",".join(skeleton(c) for c in t[1:]))
+        return "_"
+
+    def families(t):
+        if t[0] in ("and", "or", "not"):
+            return set().union(*[families(c) for c in t[1:]])
+        if t[0] in threevl.CMP:
+            return {"cmp_lit_left" if t[1][0] == "lit" else "cmp"}
+        return {t[0]}
+    def unsupported(t, sql):
+        """features of the expression that lie outside `x {<,<=,>,>=} number` joined by AND / OR without parentheses"""
+        out = set()
+        def walk(n):
+            if n[0] in ("and", "or"):
+                walk(n[1]); walk(n[2])
+            elif n[0] == "not":
+                out.add("not"); walk(n[1])
+            elif n[0] in threevl.CMP:
+                if n[0] in ("=", "<>"):
+                    out.add("eq_ne_operator")
+                if n[1][0] == "lit":
+                    out.add("literal_on_the_left")
+            elif n[0] in ("isnull", "isnotnull"):
+                out.add("null_test")
+            else:
+                out.add(n[0])
+        walk(t)
+        if "(" in sql:
+            out.add("parentheses")
+        return sorted(out)
+    if not thorough:
+        cases = vlib.stratified_sample(cases, lambda c: (skeleton(c["e"]), tuple(sorted(families(c["e"])))), 450, rng)
+    rend = []
+    for cid, c in enumerate(cases):
+        sql = threevl.render_min(c["e"])
+        c["sql"] = sql
+        vals = [threevl.sql_lit(k, n, []) for k, n in c["vals"]]
+        ops = [{"k": "exec", "sql": "CREATE TABLE k (id INT PRIMARY KEY, x INT CHECK (%s))" % sql}]
+        ops += [{"k": "exec", "sql": "INSERT INTO k VALUES (%d, %s)" % (j + 1, v), "stop_on_panic": False} for j, v in enumerate(vals)]
+        ok_vals = [v for v, a in zip(vals, c["acc"]) if a]
+        c["upd_base"] = ok_vals[0] if ok_vals else None
+        if ok_vals:
+            ops.append({"k": "exec", "sql": "INSERT INTO k VALUES (100, %s)" % ok_vals[0]})
+            ops += [{"k": "exec", "sql": "UPDATE k SET x = %s WHERE id = 100" % v, "stop_on_panic": False} for v in vals]
+        ops.append({"k": "query", "sql": "SELECT id, x FROM k"})
+        rend.append({"id": cid, "ops": ops})
+    inp, outp = vlib.scratch() + "/chk_in.ndjson", vlib.scratch() + "/chk_out.ndjson"
+    vlib.write_ndjson(inp, rend)
+    vlib.run_vh(["sql-run", "--in", inp, "--out", outp, "--jobs", vlib.NCPU], timeout=3000)
+    st = {"expressions_generated": total, "expressions_run": len(cases), "judged_writes": 0, "agree": 0, "create_refused": {}, "divergences": {},
+          "writes_inside_the_implemented_fragment": 0}
+    for r in vlib.read_ndjson(outp):
+        c = cases[r["id"]]
+        res = r["res"]
+        fam = "+".join(sorted(families(c["e"])))
+        if "ok" not in res[0]:
+            k = fam
+            st["create_refused"][k] = st["create_refused"].get(k, 0) + 1
+            continue
+        nv = len(c["vals"])
+        writes = [("insert", j, res[1 + j]) for j in range(nv) if 1 + j < len(res)]
+        if c["upd_base"] is not None and 1 + nv < len(res) and "ok" in res[1 + nv]:
+            writes += [("update", j, res[2 + nv + j]) for j in range(nv) if 2 + nv + j < len(res)]
+        inside = not unsupported(c["e"], c["sql"])
+        for stmt, j, x in writes:
+            st["judged_writes"] += 1
+            st["writes_inside_the_implemented_fragment"] += inside
+            want = c["acc"][j]
+            if "panic" in x:
+                kind = "panic"
+            elif ("ok" in x) == want:
+                st["agree"] += 1
+                continue
+            else:
+                kind = "accepts_invalid" if "ok" in x else "rejects_valid"
+            vcls = "null" if c["vals"][j][0] == "null" else "int"
+            uns = unsupported(c["e"], c["sql"])
+            if uns:
+                # outside the fragment TurDB's CHECK evaluator implements (see known_findings.d/C09.json): one finding per missing feature set
+                sig = "check:outside_implemented_fragment:%s" % "+".join(uns)
+            else:
+                sig = "check:%s:%s:%s:%s" % (kind, stmt, skeleton(c["e"]), vcls)
+            st["divergences"][sig] = st["divergences"].get(sig, 0) + 1
+            chk.classify(sig, {"sql": "CREATE TABLE k (id INT PRIMARY KEY, x INT CHECK (%s)); %s x = %s" % (c["sql"], stmt, threevl.sql_lit(c["vals"][j][0], c["vals"][j][1], [])),
+                               "check_expr": c["e"], "value": c["vals"][j], "model_accepts": want, "observed": json.dumps(x)[:200]})
+    if st["writes_inside_the_implemented_fragment"] < 200:
+        raise vlib.ToolError("only %d CHECK writes inside the implemented fragment were judged" % st["writes_inside_the_implemented_fragment"])
+    if st["judged_writes"] < 1000:
+        raise vlib.ToolError("only %d CHECK writes could be judged (CREATE TABLE refused: %s)" % (st["judged_writes"], st["create_refused"]))
+    chk.cov["check_expressions"] = st
+    chk.cov["traces_validated_against_impl"] += st["judged_writes"]
+    chk.mark("check_expressions")
+
+
 def fk_relevant(d, act, hist):
     # C09 for FOREIGN KEY: acceptance both ways, the declared effect of the delete action, no dangling reference ever
     if d["kind"] in ("accepts_invalid", "rejects_valid", "dangling_reference", "panic"):
@@ -101,6 +210,7 @@ def run(chk):
     probe_phase(chk)
     chk.cov["upsert"] = cov["upsert"]
     fk_phase(chk)
+    check_phase(chk)
 
 
 def replay(chk, path):
